@@ -109,7 +109,7 @@ func (s *Server) getPayeeTemplates(uri protocol.DocumentURI, content string) map
 	}
 
 	var result *analyzer.AnalysisResult
-	if resolved := s.getWorkspaceResolved(uri); resolved != nil {
+	if resolved := s.withOpenDocuments(s.getWorkspaceResolved(uri)); resolved != nil {
 		result = s.analyzer.AnalyzeResolved(resolved)
 	} else {
 		journal, _ := parser.Parse(content)
